@@ -52,8 +52,12 @@ NAME_CLASSES = {
 TWIN_CLASSES = {"edgelike", "auto"}
 HAS_BLANK = {"soft", "blank"}  # classes for which reading with underscore_unmunge=False is documented to differ
 # name classes exercised on the name-writing/reading calls only (the other calls never look at the text of a name)
-RT_ONLY_CLASSES = {"blank", "reserved"}
+RT_ONLY_CLASSES = {"blank"}
 RT_ACTS = {"Make", "NewickRT", "NewickNamesRT", "NewickDefaultRT", "DndRT", "JsonRT", "RichDictRT"}
+# the reserved tip name: judged on trees fresh from make_tree only (one call after Make), on the round
+# trips and on every call that rebuilds the tree through TreeBuilder
+FRESH_ONLY_CLASSES = {"reserved"}
+FRESH_ACTS = RT_ACTS | {"RootedAt", "RootedWithTip", "Unrooted", "SubTree", "RootAtMidpoint", "Copy"}
 # the twin classes run on the name-writing calls and on the calls that create or look up internal nodes by name
 TWIN_ACTS = RT_ACTS | {"RootAtMidpoint", "RootedAt", "RootedWithTip"}
 # round trips that carry internal node names: every name must come back on the same node
